@@ -261,6 +261,18 @@ func Verif_C15_NamerRewrite(sSelf, sp, sq int) {
 		want = 1
 	}
 	verifsym.Assert(n == want, "not exactly the referenced packages are registered")
+	// asking again - with an equal but distinct reference, and with a different
+	// generic type that has the same argument list - renders the same qualifiers
+	// and registers nothing new
+	again := nm.Name(gengotypes.Ref(p, name))
+	verifsym.Assert(again == out, "rendering an equal generic reference a second time gives different text")
+	other := nm.Name(gengotypes.Ref(q, name))
+	verifsym.Assert(other == lq+".M["+lq+".X,L[Y,"+lq+".Z],int]", "a second generic reference with the same arguments is rewritten differently")
+	n2 := 0
+	for range tr.Imports() {
+		n2++
+	}
+	verifsym.Assert(n2 == want, "rendering the same generic reference again registered another package")
 	verifsym.Observe("out", out)
 	verifsym.Reach("end")
 }
